@@ -23,7 +23,7 @@ func init() {
 			"CODEC-3 every encoding/binary byte order used in glow, server and client is LittleEndian; CODEC-4 fixed-size decoders refuse any input whose length differs from the sum of the field widths (80, 148) before the first read, streaming decoders check the remaining length before every field (BOUND, with C12); " +
 			"CODEC-5 every SigningBytes method starts with its structure's name as ASCII prefix, no prefix is a prefix of another, and every glow.Sign / glow.Verify call signs either a SigningBytes result, the client's hand-built copy of one (compared), or one of the two documented unprefixed formats (sync reply, recent-reports JSON); " +
 			"CODEC-SIZE the weekly-statistics buffer length equals 4 + n*(32 + 2016*8 + 2016*8) + 4 (+64), and every cursor write is followed by an advance of exactly its width (an encoder that computes its offsets from loop indices is checked as a tiling instead: first write at 0, each write or loop starts where its predecessor ends, each loop advances by the bytes of one pass); CODEC-6 variable-length parts are length-prefixed or last; CODEC-7 the structures sent as JSON have no custom marshalling, no omitting tags and only exactly round-tripping field types. " +
-			"NOT decided: that Keccak256/secp256k1 reject flipped bits and that signing is deterministic (trusted library, RFC 6979); exact float semantics beyond 'the bit pattern is copied'; encoding/json's own behaviour.",
+			"Every encoder writes the field itself (its value, IEEE bit pattern or a length), never a value computed from it; every fixed-width copy into a decoded field has all its bytes available (BOUND). NOT decided: that Keccak256/secp256k1 reject flipped bits and that signing is deterministic (trusted library, RFC 6979); exact float semantics beyond 'the bit pattern is copied'; encoding/json's own behaviour.",
 		Assumptions: append([]string{"encoding/binary, encoding/json, math.Float64bits behave as documented", "crypto.Sign is deterministic (RFC 6979)"}, baseAssumptions...),
 		Run:         runC15,
 	})
@@ -368,10 +368,112 @@ func runC15(c *an.Ctx) {
 	c.Count("CODEC", n)
 	c.Floor("CODEC", 12)
 
+	exactValues(c)
 	littleEndianOnly(c)
 	signingDomains(c)
 	jsonTypes(c)
 	injectivityNotes(c)
+}
+
+// exactValues: an encoder writes the value of the field (or its IEEE bit pattern, or a length), never a function of
+// it, and a fixed-width copy into a decoded field has all its bytes available (copy silently copies fewer).
+func exactValues(c *an.Ctx) {
+	p := c.P
+	nW, nR := 0, 0
+	for _, pkg := range []string{"glow", "server", "client"} {
+		for _, fn := range p.FuncsIn(pkg) {
+			name := fn.Name()
+			isEnc := name == "Serialize" || name == "SigningBytes" || strings.HasPrefix(name, "Serialize")
+			isDec := strings.HasPrefix(name, "Deserialize") || strings.HasPrefix(name, "UntrustedDeserialize") || strings.HasPrefix(name, "parse")
+			if !isEnc && !isDec {
+				continue
+			}
+			fi := p.Info(fn)
+			for _, e := range p.CodecEvents(fn) {
+				in, ok := e.Instr.(ssa.Instruction)
+				if !ok || in.Parent() != fn {
+					continue
+				}
+				if isEnc && e.Op == "W" && e.Val != nil {
+					nW++
+					bad := ""
+					// only the value part is inspected: a memory read (field, element, parameter) is the field itself,
+					// whatever arithmetic computes its index
+					var visit func(t *an.Term)
+					visit = func(t *an.Term) {
+						switch t.K {
+						case an.KConv:
+							visit(t.A[0])
+						case an.KBin:
+							switch t.S {
+							case "+", "-", "*", "/", "%", "<<", ">>", "&", "|", "^", "&^":
+								bad = "arithmetic " + t.S
+							}
+						case an.KUn:
+							bad = "operator " + t.S
+						case an.KPure, an.KCall:
+							cn := t.Callee()
+							if strings.HasSuffix(cn, "math.Float64bits") && len(t.A) == 1 {
+								visit(t.A[0])
+							} else if !strings.HasPrefix(cn, "builtin.len") {
+								bad = "call of " + cn
+							}
+						}
+					}
+					visit(e.Val)
+					c.Scope(fn)
+					c.Check(bad == "", "CODEC-2", fn, in.Pos(), an.KeyOf(fn, "exact:"+e.Field), "the encoder writes the field "+e.Field+" itself (its value, its IEEE-754 bit pattern or a length), not a value computed from it: what is decoded equals what was encoded, and different field values never share an encoding", "encoded value "+short(e.Val.Key())+func() string {
+						if bad != "" {
+							return " contains " + bad
+						}
+						return ""
+					}())
+				}
+				if isDec && e.Op == "R" && e.Width > 0 {
+					call, isCall := in.(*ssa.Call)
+					if !isCall {
+						continue
+					}
+					if bi, ok := call.Call.Value.(*ssa.Builtin); !ok || bi.Name() != "copy" {
+						continue
+					}
+					nR++
+					src := fi.Term(call.Call.Args[1])
+					sys := fi.SysFor(call)
+					c.Scope(fn)
+					c.Check(sys.ProveGE(an.LenTerm(src), int64(e.Width)), "CODEC-4", fn, call.Pos(), an.KeyOf(fn, "copy-fills:"+e.Field), fmt.Sprintf("the %d bytes of %s are all present where they are copied out of the input (copy would silently take fewer: a truncated record must be refused, not zero-padded)", e.Width, e.Field), "len(source) "+sys.Describe(an.LenTerm(src)))
+				}
+			}
+		}
+	}
+	c.Count("EXACT", nW+nR)
+	c.Floor("EXACT", 10)
+}
+
+// statsSignedLayout: what AllDeviceStats.SigningBytes writes after its prefix is, field by field (width, byte order,
+// float-bits flag, field), what AllDeviceStats.Serialize writes before the signature: the record that is served and
+// archived is the record that was signed.
+func statsSignedLayout(c *an.Ctx, rule string) {
+	p := c.P
+	ser := p.Method("server", "AllDeviceStats", "Serialize")
+	sb := p.Method("server", "AllDeviceStats", "SigningBytes")
+	if ser == nil || sb == nil {
+		c.Undecided(rule, nil, 0, "AllDeviceStats-codec", "AllDeviceStats.Serialize / SigningBytes not found", "anchor missing")
+		return
+	}
+	c.Scope(ser, sb)
+	seq := func(fn *ssa.Function) []string {
+		var out []string
+		for _, e := range normaliseEvents(p.CodecEvents(fn)) {
+			if e.Op != "W" || e.Field == "prefix" || e.Field == "Signature" || e.Width < 0 {
+				continue
+			}
+			out = append(out, e.Sig())
+		}
+		return out
+	}
+	a, b := seq(ser), seq(sb)
+	c.Check(len(a) >= 4 && reflect.DeepEqual(a, b), rule, sb, sb.Pos(), an.KeyOf(sb, "signed-layout"), "the bytes that are signed are, field by field (width, byte order, float bit pattern), the bytes that are served and archived, without the signature", "Serialize ["+strings.Join(a, " ")+"], SigningBytes ["+strings.Join(b, " ")+"]")
 }
 
 // prefixIs: the SigningBytes function starts its output with the given ASCII prefix.
